@@ -63,6 +63,12 @@ def analyse_fd(chk, prog, f, closer_fns, fresh_ctors):
     if cfg is None:
         return 0
     is_init = bool(re.search(r"_init(_|$)", f.name))
+    if not is_init and f.static:
+        # a static helper called only by initialisers (reset_fields(self)) works on an object that holds nothing yet
+        callers_ = [g_ for g_ in f.unit.functions.values() if g_.body is not None and g_ is not f and
+                    any(X.callee_name(c_) == f.name for c_ in X.calls_in(g_.body))]
+        if callers_ and all(re.search(r"_init(_|$)", g_.name) for g_ in callers_):
+            is_init = True
     stores = []
     raw_frees = []
     # locals that hold a socket object produced by a call (dup / new): they may own an open descriptor
@@ -239,8 +245,15 @@ def check_send(chk, prog, f):
     """F4: the value of write() is related to the requested length."""
     writes = [c for c in X.calls_in(f.body) if X.callee_name(c) == "write"]
     if not writes:
-        chk.ob("F4", f.name, "short-write", False, loc=f.loc(f.body), detail="%s performs no write()" % f.name)
-        return 0
+        # the writing loop moved into a helper of the same file: the rule is decided there
+        from ..listrules import unit_closure
+        tot = 0
+        for g_ in unit_closure(f):
+            if g_ is not f and any(X.callee_name(c) == "write" for c in X.calls_in(g_.body)):
+                tot += check_send(chk, prog, g_)
+        if not tot:
+            chk.ob("F4", f.name, "short-write", False, loc=f.loc(f.body), detail="%s performs no write()" % f.name)
+        return tot
     # variables holding the result
     res_vars = set()
     for n in walk(f.body):
@@ -357,6 +370,23 @@ def run(tier="quick"):
                     return frozenset()               # the whole object overwritten: the field holds whatever the fill was
                 if re.search(r"^spif_socket_init(_|$)", cn) and args and X.apath(args[0]) == me[:-4]:
                     return frozenset({("fdset",)})   # delegated to a sibling initialiser (checked itself)
+                g_ = f.unit.functions.get(cn)
+                if g_ is not None and g_.body is not None and g_ is not f and g_.static:
+                    # a static helper handed self that stores the descriptor field unconditionally (reset_fields(self))
+                    for j_, a_ in enumerate(args):
+                        if X.apath(a_) == me[:-4] and j_ < len(g_.params):
+                            mine_ = "d%d->fd" % g_.params[j_]["d"]
+                            for y in walk(g_.body):
+                                if y.get("k") == "assign" and y.get("op") == "=" and fd_path(y["ch"][0]) == mine_:
+                                    q = g_.parent.get(y["i"])
+                                    top = True
+                                    while q is not None and q is not g_.body:
+                                        if q.get("k") in ("if", "for", "while", "do", "switch", "cond"):
+                                            top = False
+                                        q = g_.parent.get(q["i"])
+                                    cv_ = X.const_val(y["ch"][1])
+                                    if top and (cv_ is None or cv_ < 0):
+                                        return frozenset({("fdset",)})
             return state
 
         def v7(state, n, blk, bad7=bad7):
